@@ -308,6 +308,9 @@ def wide_rules(rec, rng):
             except HTTPException as e:
                 rec.violation("C04/built-url-does-not-match", f"{rs}: built {vals} but matching gives {type(e).__name__}", case, monitor="law1")
                 return
+            except Exception as e:  # noqa: BLE001
+                rec.violation(f"C04/build-raises-{type(e).__name__}", f"{rs}: {e!r}", case, monitor="law1")
+                return
             if got != ("wide", vals):
                 bad = {k: (vals[k], got[1].get(k)) for k in vals if got[1].get(k) != vals[k]}
                 rec.violation("C04/values-assigned-to-other-variables", f"{rs}: built {url!r}; matching it gives other values for {bad} (built, matched)", case, monitor="law1")
@@ -350,6 +353,9 @@ def own_defaults(rec, rng):
         except HTTPException as e:
             rec.violation("C04/built-url-does-not-match", f"{rules!r}: build({vals!r}) does not match back: {type(e).__name__}", case, monitor="law1")
             return
+        except Exception as e:  # noqa: BLE001
+            rec.violation(f"C04/build-raises-{type(e).__name__}", f"{rules!r}: build({vals!r}): {e!r}", case, monitor="law1")
+            return
         if got != (ep, vals):
             rec.violation("C04/build-then-match:values-differ", f"{rules!r}: built {url!r}, matching gives {got!r}", case, monitor="law1")
             return
@@ -385,6 +391,9 @@ def odd_names_and_shared_paths(rec, rng):
                     got = ad.match(unquote(u.path))
                 except HTTPException as e:
                     rec.violation("C04/built-url-does-not-match", f"{shape}: build({vals!r} + {extra!r}) gave a URL that does not match back: {type(e).__name__}", case, monitor="law1")
+                    break
+                except Exception as e:  # noqa: BLE001 - the values are in the converters' domains: building must not fail
+                    rec.violation(f"C04/build-raises-{type(e).__name__}", f"{shape}: build({vals!r} + {extra!r}): {e!r}", case, monitor="law1")
                     break
                 if got != ("e", vals):
                     rec.violation("C04/build-then-match:values-differ", f"{shape}: built {url!r}, matching its path gives {got!r}, expected {vals!r}", case, monitor="law1")
